@@ -23,7 +23,7 @@ type gctx struct {
 	injected bool
 }
 
-func (g *gctx) id() int  { g.nextID++; return g.nextID }
+func (g *gctx) id() int { g.nextID++; return g.nextID }
 
 // nested maps (an output key around a map producer, nested values in the input) are
 // generated in every case that does not deliberately leave the property's domain
